@@ -56,6 +56,15 @@ pub enum PatchIndexError {
         actual: u8,
     },
 
+    /// Key size of a block does not fit the 16-byte key fields
+    #[error("block type {block_type}: key size {key_size} exceeds 16 bytes")]
+    InvalidKeySize {
+        /// Block type ID
+        block_type: u32,
+        /// Key size byte of the block
+        key_size: u8,
+    },
+
     /// I/O error during parsing
     #[error("I/O error: {0}")]
     Io(#[from] std::io::Error),
